@@ -83,6 +83,11 @@ chk('C06', 'model_checking',
     'tla/Lifecycle.tla states the documented Fastly lifecycle for up to 3 requests over 2 URLs with restarts <= 3 and cache store/lookup; TLC checks the invariants (restart bound, vcl_log at most once and last, hit iff stored, first request never hits, failed requests do not log) on all 3353 reachable states. The dumped graph is parsed; every behaviour with at most 3 (quick) / 5 (thorough) non-default choices over 3 requests (5 / 7 for single requests) plus one behaviour through every remaining edge (all 10296 edges covered) is compiled to a VCL program and a request history, run through ServeHTTP on a fresh interpreter and compared step by step (subroutines executed, restarts, reported error, X-Cache, cached flag). All 216 three-request histories over rate-counter / penalty-box operations are compared with a map model.',
     'Trusts: TLC; the model itself (written from the Fastly documentation; deliver_stale, expiry and purge are outside it); the dot-dump parser (node count is checked against TLC\'s distinct-state count).', '§4 C06')
 
+chk('C04', 'exploration',
+    'complete enumeration of program situations x output modes x verbosities x rule overrides on the real binary; library-computed reference verdict and cross-mode differential',
+    '22 program situations x .falco.yml rule overrides (none; every fired rule x every level in both letter cases; all level pairs for two fired rules; an unrelated rule) - 500 cells - are each run through the real `falco lint` binary built from the current tree under all 6 combinations {plain, -json} x {default, -v, -vv} (3000 process runs). Oracles: exit status and error/warning/info counts equal the verdict computed through the library (parse main and includes, lint, apply overrides and ignore filtering); they are identical across the 6 combinations; the -json document agrees with the summary line.',
+    'Trusts: the library-level reference (parser + linter through lintx) and the regular expression that reads the summary line.')
+
 NOT_YET = {i: 'check not built yet in this session (design in DESIGN.md §4); will be claimed once its command exists' for i in ids if i not in CHECKS}
 
 m = {
